@@ -277,8 +277,19 @@ func c15Run(c *mc.Ctx) {
 			}
 		}
 	}
+	for _, n := range []int{65535, 65536, 65537, 70000, 1<<24 - 1, 1 << 24, 1<<24 + 1} {
+		if !c.Mine() {
+			continue
+		}
+		for _, kind := range []string{"string", "binary"} {
+			for _, w := range []bool{false, true} {
+				c15One(c, c15Case{Kind: kind, Lens: []int{n}, W: w})
+			}
+		}
+		c15One(c, c15Case{Kind: "base", Lens: []int{n, 3, 3, 0, 0}, W: true, Extra: 9})
+	}
 	c.DistinctN(2 * (hi - lo))
-	c.Done("WriteStringNocopy / WriteBinaryNocopy: every length 0..12289 x {nil, recording} writer x {exact, spare} capacity")
+	c.Done("WriteStringNocopy / WriteBinaryNocopy: lengths 65535..65537, 70000, 2^24-1..2^24+1 and every length 0..12289 x {nil, recording} writer x {exact, spare} capacity")
 	// (2) sequences of <= 3 calls into one buffer
 	ls := []int{0, 1, 4095, 4096, 4097, 9000}
 	for _, a := range ls {
